@@ -51,7 +51,16 @@ func genC01(r *Rand, tier string, i int) *h.Scenario {
 		p.MaxClients = 4
 		p.MaxOps = 20
 	}
-	return GenBase(r, &p)
+	sc := GenBase(r, &p)
+	// "or the container is cancelled": a render error cancels it; Wait must return all the same
+	if r.Bool(0.1) && len(sc.Bars) > 0 {
+		site := []int{h.FaultFill, h.FaultExt, h.FaultOutWrite, h.FaultOutShort}[r.Intn(4)]
+		sc.Faults = []h.Fault{{Site: site, Bar: r.Intn(len(sc.Bars)), K: r.Range(1, 5)}}
+		if site == h.FaultOutWrite || site == h.FaultOutShort {
+			sc.Faults[0].Bar = 0
+		}
+	}
+	return sc
 }
 
 func stuckOps(hi *Hist) string {
